@@ -229,6 +229,14 @@ void run_episode(Ctx &x, const Ep &e) {
     bool owner_first = e.d % 2 == 0;
     if (owner_first) for (auto h : hs) p_shm_free(h); else for (size_t i = hs.size(); i-- > 0;) p_shm_free(hs[i]);
     PError *err = NULL; PShm *bad = p_shm_new(NULL, 10, P_SHM_ACCESS_READWRITE, &err); if (!bad) x.failing_call = true; else p_shm_free(bad); if (err) p_error_free(err);
+    // creation that fails half-way on a fresh name: sizes the system refuses when the new segment is sized (ftruncate) or mapped (mmap)
+    static const psize bad_sizes[] = {0, (psize)1 << 63, ~(psize)0, ((psize)1 << 63) - 1, (psize)1 << 46};
+    if (e.c / 2 % 2) {
+      string n3 = x.fresh("vcm"); psize bs = bad_sizes[(e.a / 6 + e.b / 4) % 5];
+      PError *e3 = NULL; PShm *h = p_shm_new(n3.c_str(), bs, P_SHM_ACCESS_READWRITE, &e3);
+      if (!h) { x.failing_call = true; x.classes.insert("shm_create_fails_halfway"); } else { p_shm_take_ownership(h); p_shm_free(h); }
+      if (e3) p_error_free(e3);
+    }
   } else if (k == "shmbuf") {
     string name = x.fresh("vcb");
     int cap = 10 + e.a % 200;
@@ -246,6 +254,13 @@ void run_episode(Ctx &x, const Ep &e) {
       if (!bad) x.failing_call = true; else p_shm_buffer_free(bad);
       if (err) p_error_free(err);
       p_shm_free(small);
+    }
+    if (e.a / 200 % 2 || e.d % 4 == 2) {
+      static const psize bad_caps[] = {~(psize)0, ~(psize)0 - 16, ((psize)1 << 63) - 17, (psize)1 << 63, (psize)1 << 46};
+      string n3 = x.fresh("vcb");
+      PError *e3 = NULL; PShmBuffer *h = p_shm_buffer_new(n3.c_str(), bad_caps[(e.a + e.b) % 5], &e3);
+      if (!h) { x.failing_call = true; x.classes.insert("shmbuf_create_fails_halfway"); } else p_shm_buffer_free(h);
+      if (e3) p_error_free(e3);
     }
   } else if (k == "thread") {
     PUThreadKey *key = (e.a % 2 && !vl::excluded("tls-key")) ? p_uthread_local_new(free) : NULL;
